@@ -5,6 +5,7 @@ import itertools
 import json
 import multiprocessing as mp
 import os
+import re
 import sys
 import time
 import traceback
@@ -142,6 +143,8 @@ def _eval_cases(prop, cases, stats, sample_every=0):
     no_excl = bool(os.environ.get("NMV_NO_EXCLUDE"))
     for c in cases:
         ex = None if no_excl else prop.excluded(c)
+        if ex and isinstance(ex, str) and re.match(r"^C\d\d-", ex) and ex not in listed_ids(ex[:3]) and not os.environ.get("NMV_EXCLUDE_UNLISTED"):
+            ex = None      # the class of a finding that is no longer listed (repaired) is searched again; the id names its property
         if ex:
             stats.rejected["excluded_by_known_finding:" + ex] = stats.rejected.get("excluded_by_known_finding:" + ex, 0) + 1
             continue
@@ -230,6 +233,25 @@ def load_known(pid):
         return []
     data = json.load(open(KNOWN))
     return [e for e in data.get("findings", []) if e.get("property") == pid]
+
+
+_LISTED = {}
+
+
+def listed_ids(pid):
+    """ids of the findings of this property that are still listed as known (a repaired class - status fixed - is searched again)"""
+    if pid not in _LISTED:
+        _LISTED[pid] = {e["id"] for e in load_known(pid) if e.get("status") == "known"}
+    return _LISTED[pid]
+
+
+def pick_class(pid, ids):
+    """a case may lie in several finding classes: one that is still listed decides, else the first"""
+    ids = [i for i in ids if i]
+    for i in ids:
+        if i in listed_ids(pid):
+            return i
+    return ids[0] if ids else None
 
 
 def match_known(entry, feats):
